@@ -287,7 +287,9 @@ def oracle(run):
             if sig == "C01:error-position-wrong":
                 run.violate("C07:compile-error-at-wrong-position", detail, {"sources": texts, "expected": list(exp)})
     nb = parser_corr.neighbours()
-    for t in CORPUS + [[x] for x in (nb if getattr(run, 'escalated', False) or run.tier == 'thorough' else nb[::4])] + gen_texts(run, run.budget(600, 20000)):
+    # the corpus of minimised past failures of the compile-based checks, in its canonical spelling: accepted or refused, never another exception
+    desc_corpus = [list(gen_desc.print_desc(d, gen_desc.Spelling(None))[0]) for d in gen_desc.CORPUS]
+    for t in CORPUS + desc_corpus + [[x] for x in (nb if getattr(run, 'escalated', False) or run.tier == 'thorough' else nb[::4])] + gen_texts(run, run.budget(600, 20000)):
         run.case(("oracle", tuple(t)), True, kind="text")
         for sig, detail in check_texts(t):
             run.violate(sig, detail, {"sources": t})
